@@ -100,7 +100,8 @@ def _maneuvers(sv, spec, k):
         if kind == "impulsive":
             out.append(ImpulsiveMan(d, dv, frame=fr, comment=comment))
         else:
-            out.append(ContinuousMan(d, timedelta(seconds=120.5 + j), dv=dv, frame=fr, comment=comment, date_pos="start"))
+            # the burn described by its start, its middle or its end: the message carries the ignition epoch whichever was given
+            out.append(ContinuousMan(d, timedelta(seconds=120.5 + j), dv=dv, frame=fr, comment=comment, date_pos=("start", "median", "stop")[(k + j) % 3]))
     if out:
         sv.maneuvers = out
 
